@@ -326,6 +326,22 @@ func (j *judge) event(ev *event) {
 		}
 		j.run.Count("recording_file_syscalls_checked", 1)
 	}
+	// the delete form manages the files of the group it belongs to: whatever it removes lies
+	// directly in that group's own recording directory (recordings/<g>/sub/ is the directory
+	// of another group, <g>/sub, with its own operators)
+	if hostile && in.Kind == "delete-form" && writeClass {
+		dir := filepath.Join(j.lay.Rec, filepath.FromSlash(in.Group))
+		for _, l := range locs {
+			// ("." and ".." name the group's own directory: removing it when it is empty stays
+			// within what belongs to the group)
+			if l.p != dir && filepath.Dir(l.p) != dir {
+				j.violation("delete-outside-group-dir",
+					fmt.Sprintf("the delete form of group %s with filename %q made the server do %s (%s) on %s, which is not directly inside %s", in.Group, in.S, ev.Name, outcome, j.lay.rel(l.p), j.lay.rel(dir)), in, ev)
+				return
+			}
+		}
+		j.run.Count("delete_form_file_syscalls_checked", 1)
+	}
 }
 
 // Reads the C library and the Go runtime perform lazily (thread creation, first use of
